@@ -1,9 +1,12 @@
 rc_target("c17_memtrace", flavour="asan")
 rc_target("c17_memtrace_mt", flavour="sched", wrap=True)
-plan("C17", [T("c17_memtrace", 8000, 60000), T("c17_memtrace_mt", 2000, 10000)], min_nt=3000,
+# second engine for the threaded clause: free-running threads under ThreadSanitizer (a critical section whose lock calls
+# were removed is atomic under the controlled scheduler - no decision point inside - and only visible as a data race)
+rc_target("c17_race", flavour="tsan", race_oracle=True)
+plan("C17", [T("c17_memtrace", 8000, 60000), T("c17_memtrace_mt", 2000, 10000), T("c17_race", 1500, 12000, 3, 8)], min_nt=3000,
      rule="allocation histories against a reference live map; threaded histories x schedules under the controlled scheduler",
      technique="model-based property testing (rapidcheck): command sequences vs. a reference live map with block patterns; "
-               "threaded programs x generated schedules under the controlled scheduler with an in-flight-operation oracle",
+               "threaded programs x generated schedules under the controlled scheduler with an in-flight-operation oracle + the same kind of generated program on free-running threads under ThreadSanitizer (race report or functional oracle)",
      level_text="Generated search. Sequential part: up to 80 acquire / calloc / realloc (grow, shrink, same, to 0, from NULL) / release / "
                 "dump / query commands through a tracer over three wrapped allocators (own realloc that always moves, own realloc that keeps "
                 "the block when it fits, acquire/release only), all three levels and four stack depths; after every command "
@@ -13,7 +16,7 @@ plan("C17", [T("c17_memtrace", 8000, 60000), T("c17_memtrace_mt", 2000, 10000)],
                 "decision point at every mutex, atomic and clock operation of the library; every query made while no other operation is in "
                 "flight must be exact, a query made during other threads' operations must equal the reference plus one of the partial "
                 "effects of those operations, and exact equality is asserted at harness barriers and after all threads were joined. "
-                "Sampling under sequential consistency, not proof.",
+                "Sampling under sequential consistency, not proof. Second engine (*_race target): real parallel threads under ThreadSanitizer, whose happens-before analysis sees unsynchronised accesses that the controlled scheduler cannot (a section without lock calls has no decision point); a report or a functional failure there is a violation, replayed 12 times and reported when it shows twice.",
      assumptions=["out-of-memory is fatal by design and not generated; zero-size acquire/calloc are fatal preconditions and not generated",
                   "the old size passed to aws_mem_realloc is the block's current requested size (caller obligation)",
                   "every block is used by one thread at a time (ownership is handed over explicitly)",
